@@ -64,6 +64,9 @@ def cz(v, model, universe=None):
         return {"$obj": getattr(v.cls, "name", str(v.cls)), "fields": {k: cz(x, model) for k, x in v.fields.items()}}
     if isinstance(v, VDictRec):
         return {"$dict": {k: cz(x, model) for k, x in v.fields.items()}}
+    if type(v).__name__ in ("VJDict", "VJSet", "VJList", "VWStr"):
+        from . import jsontree
+        return jsontree.concretize(v, model, cz)
     if isinstance(v, VOptObj):
         return {"$present": z3.is_true(_ev(model, v.present))}
     if isinstance(v, VFunc):
